@@ -36,6 +36,7 @@ func runC04(r *an.Run) {
 	c04ForDots(r)
 	c04ImplicitDots(r)
 	okDisciplineAll(r, "R10-ok-discipline-and-failed-data", 17)
+	memoDependencies(r, "R11-failure-memo-sees-every-binding")
 }
 
 const tokIDENT = 4
